@@ -26,25 +26,30 @@ def job_derive(job):
     extra, iso = _decorate(None, None, known, rng, None, grid)
     known2 = sorted(set(known) | {iso})
     lines, g, L, known2, grid = drivers.make_trace(directed, True, list(calls) + extra, labeling=lab, rng=rng,
-                                                   known=known2, grid=grid, ret_obj=True)
+                                                   known=known2, grid=grid, ret_obj=True, observe_every=len(known2) <= 8)
     # nested mutable attribute values and a graph attribute (not modelled; part of the raw digest)
     for n in list(g.nodes())[:2]:
         g.add_node(n, nest=[1, 2], nestd={"k": [1]})      # public API: add_node on an existing node updates its attributes
     g.graph["gnest"] = [1]
     lines.append({"op": "observe", "fork": False, "res": "ok", "obs": core.observe(g, L, known2, grid)})
     lo, hi = grid
+    big = len(known2) > 8          # large random universe: no query battery on the results, sampled windows
+    if big:
+        tier = "quick"
     if prop == "C06":
         wins = [(f, t) for f in range(lo, hi) for t in range(f, hi)]
         nwin = len(wins) if tier == "thorough" else 5
         for (f, t) in (wins if nwin >= len(wins) else rng.sample(wins, nwin)):
             lines.append(derive.derive_line(g, L, known2, grid, "time_slice",
                                             {"f": f, "g": t, "gomit": False, "form": rng.choice(["method", "function"])},
-                                            rng=rng, with_battery=(rng.random() < (0.35 if tier == "quick" else 0.2))))
+                                            rng=rng, with_battery=(not big and rng.random() < (0.35 if tier == "quick" else 0.2))))
         f = rng.randint(lo, hi - 1)
-        lines.append(derive.derive_line(g, L, known2, grid, "time_slice", {"f": f, "g": f, "gomit": True, "form": "method"}, rng=rng))
+        lines.append(derive.derive_line(g, L, known2, grid, "time_slice", {"f": f, "g": f, "gomit": True, "form": "method"}, rng=rng,
+                                        with_battery=not big))
         f, t = rng.randint(lo + 1, hi), rng.randint(lo, hi - 1)
         if t < f:
-            lines.append(derive.derive_line(g, L, known2, grid, "time_slice", {"f": f, "g": t, "gomit": False, "form": "method"}, rng=rng))
+            lines.append(derive.derive_line(g, L, known2, grid, "time_slice", {"f": f, "g": t, "gomit": False, "form": "method"}, rng=rng,
+                                            with_battery=not big))
         for _ in range(3 if tier == "quick" else 12):
             (f, t), (f2, t2) = rng.choice(wins), rng.choice(wins)
             lines.append(derive.derive_line(g, L, known2, grid, "time_slice2", {"f": f, "g": t, "f2": f2, "g2": t2},
@@ -62,13 +67,13 @@ def job_derive(job):
             else:
                 cfg = {"delim": rng.choice([" ", ",", "\t", ";"]), "enc": rng.choice(["utf-8", "latin-1", "utf-16"]) if False else rng.choice(["utf-8", "latin-1"]),
                        "target": rng.choice(["plain", "gz", "bz2", "fileobj"])}
-            lines.append(derive.io_line(g, L, known2, grid, kind, cfg, rng=rng, with_battery=(rng.random() < 0.3)))
+            lines.append(derive.io_line(g, L, known2, grid, kind, cfg, rng=rng, with_battery=(not big and rng.random() < 0.3)))
     else:
         if directed:
-            lines.append(derive.derive_line(g, L, known2, grid, "to_undirected", {"recip": False}, rng=rng, mutate=True))
-            lines.append(derive.derive_line(g, L, known2, grid, "to_undirected", {"recip": True}, rng=rng, mutate=True))
+            lines.append(derive.derive_line(g, L, known2, grid, "to_undirected", {"recip": False}, rng=rng, mutate=True, with_battery=not big))
+            lines.append(derive.derive_line(g, L, known2, grid, "to_undirected", {"recip": True}, rng=rng, mutate=True, with_battery=not big))
         else:
-            lines.append(derive.derive_line(g, L, known2, grid, "to_directed", {}, rng=rng, mutate=True))
+            lines.append(derive.derive_line(g, L, known2, grid, "to_directed", {}, rng=rng, mutate=True, with_battery=not big))
     return lines
 
 
@@ -125,6 +130,12 @@ def run(prop, tier, seed):
         jobs.append((rng.randrange(1 << 30), prop, rng.random() < 0.5, calls,
                      rng.choice(IOLABS if prop in ("C09", "C10", "C11") else LABS),
                      drivers.known_of(calls), drivers.grid_of(calls), tier))
+    # a few large universes (12-18 nodes, instants up to 80): presence / node / round-trip clauses only
+    for _ in range(4 if tier == "quick" else 60):
+        calls = [c for c in drivers.rand_history(rng, rng.choice([12, 18]), rng.choice([40, 80]), rng.randint(60, 120), bulk=0.1)
+                 if c["op"] not in ("clear", "clear_edges")]
+        jobs.append((rng.randrange(1 << 30), prop, rng.random() < 0.5, calls,
+                     rng.choice(IOLABS if prop in ("C09", "C10", "C11") else LABS[:5]), drivers.known_of(calls), drivers.grid_of(calls), tier))
     chk.run_jobs(job_derive, jobs, "der", chunk=200)
     if prop == "C09":
         # 'u v t e' rows read as the span t..e-1 (clause C09_c, spec/ParsersSpec.tla)
